@@ -17,10 +17,10 @@ type Sort string
 const (
 	SInt  Sort = "Int"
 	SBool Sort = "Bool"
-	SArrI Sort = "(Array Int Int)"               // index -> int (one byte array, or ref -> int field)
-	SArrB Sort = "(Array Int Bool)"              // ref -> bool field
-	SArr2 Sort = "(Array Int (Array Int Int))"   // array id -> index -> int
-	SAr2B Sort = "(Array Int (Array Int Bool))"  // array id -> index -> bool
+	SArrI Sort = "(Array Int Int)"              // index -> int (one byte array, or ref -> int field)
+	SArrB Sort = "(Array Int Bool)"             // ref -> bool field
+	SArr2 Sort = "(Array Int (Array Int Int))"  // array id -> index -> int
+	SAr2B Sort = "(Array Int (Array Int Bool))" // array id -> index -> bool
 )
 
 func elemSort(s Sort) Sort {
